@@ -195,6 +195,13 @@ pub fn gen_sys(ctx: &mut Context, rng: &mut SmallRng, cfg: &SysCfg, tag: &str) -
         let o = draw(ctx, rng, w, &all_syms, &arr_syms, &mut pool);
         sys.add_output(ctx, format!("{tag}out{k}").into(), o);
     }
+    // pass-through ports: an output that is a bare input or state symbol; like the btor2 reader, the label of such a line
+    // becomes the entry of the system's name table for that symbol (the symbol itself keeps its name)
+    if !all_syms.is_empty() && rng.random_range(0..3) == 0 {
+        let e = *all_syms.choose(rng).unwrap();
+        sys.add_output(ctx, format!("{tag}fw").into(), e);
+        if input_syms.contains(&e) || rng.random_bool(0.5) { let nm = ctx.string(format!("{tag}fw").into()); sys.names[e] = Some(nm); }
+    }
     // name some inner nodes
     for e in pool.iter() {
         if rng.random_range(0..4) == 0 && !ctx[*e].is_symbol() && sys.names[*e].is_none() {
